@@ -151,6 +151,34 @@ CHECKS["C19"] = dict(
 REASON_PENDING = "check not built yet in this session (see DESIGN.md Appendix D build order); nothing is claimed for it"
 
 
+# ---- additions of the third session (appended to the level texts above)
+_SCOPE = (" Plus the SCOPE MACHINE (mv/scopeseq.py): explicit enumeration of ALL statement sequences over the alphabet {def v: Int := 1, def fin v: Int := 2, "
+          "def v: Str := \"s\" (shadowing), def fin v: Int / def v: Int (declared only), v := 3, a use as Int, a use as Str} and block constructors {if, if-else (then side), "
+          "if-else (else side), for, while, match arm, handle arm}, up to 4 statements / nesting 1 (quick) and 5 statements / nesting 2 with all 7 block kinds (thorough), hosted at top level, "
+          "in a function and in a method, against a reference model whose state is the stack of scopes (visibility, mutability, type, value of v); ")
+CHECKS["C07"]["text"] += _SCOPE + "C07 judges the sequences whose first illegal statement is an assignment to a fin or undefined v (must be rejected) and the legal sequences that assign (must be accepted)."
+CHECKS["C07"]["technique"] += "; plus explicit enumeration of all statement sequences within a size/nesting bound against a reference scope model"
+CHECKS["C09"]["text"] += (_SCOPE + "C09 judges the sequences whose first illegal statement is a use of an invisible or wrongly-typed (shadowed) v and the legal sequences without assignment; legal ones are executed. "
+                          "Plus the CONSTRUCTOR MACHINE (mv/ctorseq.py): all constructor bodies over {assign a, assign y, read a, read y, read through y, assign through y, if, if-else} up to 4 (5) statements against a reference "
+                          "model whose state is the set of assigned fields (if-else: intersection): a read of an unassigned field must be rejected, legal bodies accepted and executed with both values of the condition.")
+CHECKS["C09"]["technique"] += "; plus explicit enumeration of all statement sequences / constructor bodies within a bound against reference models of scopes and of assigned fields"
+CHECKS["C05"]["text"] += (" Value CARRIERS: 12 compound constructs whose tail is the value (handle: guarded expression and arm, line and block; if-then / if-else blocks; match arms; handles nested in branches and arms, "
+                          "also with the same binder name in sibling branches) x 4 consumers (annotated initialiser, implicit last expression, the same after a statement, reassignment) x all type pairs; "
+                          "values that are field reads / method results in tail, return, initialiser, reassignment and argument position; the scope machine's sequences whose first illegal statement is an assignment of the wrong type.")
+CHECKS["C05"]["note"] += " Further unrepaired defects delimited by C05-F2..F4 (arms must have exactly the expected type; arm of a handle around a definition unchecked; same binder in sibling handles)."
+CHECKS["C06"]["text"] += (" Every case is ALSO run behind an independent, legal 'noise' prefix at the start of the file (a None assigned inside a branch; thorough: also same-named locals of different type in sibling branches, and a handle + match with binders) - "
+                          "the verdict must not depend on it; and the constructor machine's bodies whose only fault is a non-nullable field left unassigned on some path (must be rejected).")
+CHECKS["C06"]["note"] = "Unrepaired checker defects are delimited by the open C06 entries of known_findings.json (zones by payload kind and producer); three former ones were closed by fix: commits of the third session."
+CHECKS["C01"]["text"] += (" Plus every LEGAL sequence of the scope machine (mv/scopeseq.py, see C09) with the lines the reference scope model says it prints (values of v under block scoping).")
+CHECKS["C01"]["note"] += " C01-F4 (block scoping emitted as function scoping) is recognised on scope-machine programs only when the output equals what a function-scoped model of the same statements prints."
+CHECKS["C04"]["text"] += (" Third session: the scoping bases (family S: a definition local to every block kind - then, else, one-sided if, for, while, match arm, handle arm - followed by uses) and the edit 'rename a use to EVERY name bound anywhere in the program' "
+                          "(locals of other blocks, loop variables, binders, parameters; quick tier: on the scoping bases).")
+CHECKS["C16"]["text"] += (" Misplaced user imports: for each of the 9 support names, the user's own import of it in 8 places (first, after the use, in an uncalled / later-called function, in a method, in a branch not taken, in a loop run zero times, aliased) x the construct needing it at module level / inside a function.")
+CHECKS["C15"]["text"] += (" Third session: names RELATED to another identifier of the same program (its proper prefixes, it with a suffix, doubled, minus its last character) for every identifier (quick: on the hand-written bases), and bases with `with` statements and redefined names.")
+CHECKS["C11"]["text"] += (" The parameter-list family includes lambdas (as initialiser, as argument, inside a function).")
+CHECKS["C20"]["text"] += (" Generic arguments include two inheritance chains of length 3 (Int <= Float <= Complex, D <= B <= A).")
+
+
 def main():
     commits = subprocess.run(["git", "-C", "/repo", "log", "--format=%H %s"], stdout=subprocess.PIPE, text=True).stdout.splitlines()
     hooks = [c.split()[0] for c in commits if c.split(" ", 1)[1].startswith("verif:")]
